@@ -251,8 +251,30 @@ def replay_pipeline(case, alarm=None):
     import sys
     import types
     backend = case.get("backend", "cbc")
+    restore = None
     if backend == "glpk_import":
         sys.modules["cylp"] = None
+    elif backend == "glpk_solvererror":
+        import cvxpy as cp
+        orig = cp.Problem.solve
+
+        def failing(self, *a, **k):
+            if k.get("solver") == cp.CBC:
+                raise cp.SolverError("CBC failed (replay of the SolverError configuration)")
+            return orig(self, *a, **k)
+        cp.Problem.solve = failing
+        restore = lambda: setattr(cp.Problem, "solve", orig)     # noqa: E731
+    try:
+        return _replay_pipeline(case)
+    finally:
+        if backend == "glpk_import":
+            sys.modules.pop("cylp", None)
+        if restore:
+            restore()
+
+
+def _replay_pipeline(case):
+    backend = case.get("backend", "cbc")
     try:
         c, D, de, per, pair = real_setup(case)
     except Exception as ex:     # noqa: BLE001
@@ -264,15 +286,17 @@ def replay_pipeline(case, alarm=None):
         if type(ex).__name__ == "_Alarm":
             raise
         return dict(reproduced=True, detail="real build raised " + repr(ex)[:300])
-    finally:
-        if backend == "glpk_import":
-            sys.modules.pop("cylp", None)
     bad = real_check_alignment(case, c, A, soft)
+    if bad:
+        return dict(reproduced=True, detail="; ".join(bad[:4]))
     want, _ = real_oracle(case, per, pair, de, soft)
     got = float(A.disorder)
     if abs(got - want) > 2e-5 * max(1.0, abs(want)):
         bad.append(f"disorder {got} != optimum {want}")
-    rec = float(A.compute_disorder(D))
+    try:
+        rec = float(A.compute_disorder(D))
+    except Exception as ex:     # noqa: BLE001
+        return dict(reproduced=True, detail="recomputing the disorder raised " + repr(ex)[:200])
     if abs(rec - got) > 2e-5 * max(1.0, abs(got)):
         bad.append(f"cached disorder {got} != recomputed {rec}")
     return dict(reproduced=bool(bad), detail="; ".join(bad[:4]), disorder=got, optimum=want)
